@@ -50,6 +50,10 @@ CHECKS['C15'] = dict(cat='exploration', ref='4 C15',
    text='Monitor on the export paths of answers: for acyclic equation systems executed in random orders (outer-first, inner-first, chains) through compiled bodies, head unification, findall, assertz and nested API unifications, to_python at the answer and the saved get_value result inspected WITHOUT dereferencing after the generator is closed are compared with the order-independent solution computed by a reference unifier.',
    note='Trusted: the reference unifier; partial lists are not passed to to_python (unspecified).',
    tech='runtime assertion monitor on get_value/to_python results at the answer and after backtracking')
+CHECKS['C08'] = dict(cat='exploration', ref='4 C08',
+   text='History monitor over load (overwrite on/off), register_function (inferred/explicit/variadic), assert, clear and failing loads; after every step a probe set (every name x arity 0..3) is queried on the real engine and compared with the list-of-definitions model of two independent reference interpreters, so order of combined loads, cut locality per definition group, exact-vs-variadic preference, late binding and atomicity of failing loads are all decided by observed answers. Thorough enumerates all 24 load orders x 16 overwrite vectors of 4 scripts.',
+   note='Trusted: the definitions model in reference interpreters A and B (must agree).',
+   tech='offline checking of recorded load/register/assert histories against an executable definitions model')
 PENDING = {}
 
 def main():
